@@ -112,8 +112,14 @@ func VH_C16_select() {
 	isDir := map[string]bool{x: true, e: true, x + "/" + q: true}
 
 	incS, excS := vh_choosePatterns("inc", v.Param("NI", 1)), vh_choosePatterns("exc", v.Param("NE", 1))
+	popFile := false
 	if v.Param("POP", 0) != 0 && v.Bool("populated") {
 		m.MkDir(dst+"/"+x, 0700, 9, 9, 5)
+		if v.Param("POP", 0) >= 2 {
+			// ... and an older file where the source has the file P
+			m.MkFile(dst+"/"+x+"/"+p, []byte("old"), 0600, 9, 9, 9000000000)
+			popFile = true
+		}
 		v.Cover("populated-destination")
 	}
 	before := m.Snapshot(dst)
@@ -176,6 +182,15 @@ func VH_C16_select() {
 				}
 			}
 			v.Assert(sameX, "an ancestor created on demand carries the source directory's xattrs")
+		}
+	}
+	if popFile {
+		d := vh_findEntry(after, x+"/"+p)
+		if walked[x+"/"+p] {
+			v.Assert(d != nil && string(d.Data) == "p", "a selected file replaces the older destination file at its path")
+		} else {
+			v.Cover("unselected-over-existing")
+			v.Assert(d != nil && string(d.Data) == "old" && d.Uid == 9, "a destination entry at the path of an unselected source entry stays untouched")
 		}
 	}
 	v.Assert(len(after) <= len(all), "nothing outside the source's paths is created")
